@@ -13,7 +13,8 @@ import atexit, importlib.util, json, os, queue, re, shutil, subprocess, sys, tem
 import tcgen
 
 NAME_RE = re.compile(r"^[dmw][0-9]+$")
-EXC_TAG = {"RuntimeError": "x", "SkipException": "s", "KeyboardInterrupt": "k"}
+EXC_TAG = {"RuntimeError": "x", "AssertionError": "x", "ValueError": "x", "Boom": "x",
+           "SkipException": "s", "KeyboardInterrupt": "k"}
 CLI_TIMEOUT = 60
 ENTRY = {"newbot": "/venv/bin/newbot", "tbot": "/venv/bin/tbot"}
 
